@@ -1,5 +1,7 @@
 package shared
 
+//zz:notfor pkg/cli
+
 import (
 	corev1 "k8s.io/api/core/v1"
 
